@@ -22,6 +22,7 @@ import CaddyModel.C04.Values
 import CaddyModel.C04.NoPanic
 import CaddyModel.C04.Witness
 import CaddyModel.C04.Clients
+import CaddyModel.C04.Places
 import CaddyModel.C04.GenTie
 
 namespace CaddyModel.C04
@@ -530,6 +531,38 @@ example : let y := runSched 1 [[.ln 0 true, .cdel 0], [.ln 0 true]] [0, 0, 1, 1,
   decide
 example : let y := runSched 1 [[.ln 0 true, .cdel 0], [.ln 0 true, .cdel 0]] []
     (y.clean, y.threads.map (·.held), y.g.pool 0, (y.g.ent 0).destructed) = (true, [[], []], none, 1) := by decide
+
+/-- **the in-flight counters are the threads' program counters**: in every state the driver can reach
+    (any programs, any schedule, no hypothesis) each of `ctor failing waiters lsWaiters del2 del3` of
+    every allocated entry is the number of threads parked at that place for that entry -/
+theorem inflight_counters_are_thread_pcs (nk : Nat) (progs : List (List Op)) (sched : List Nat) (p : Place) (e : Nat)
+    (he : e < (runSched nk progs sched).g.next) :
+    placeOf ((runSched nk progs sched).g.ent e) p = placeCount (runSched nk progs sched).threads p e :=
+  (placeBooks_runSched nk progs sched).count p e he
+
+/-- **`end:ok` means quiescent**: when every thread has finished its program (what the driver prints as
+    `end:ok`) no call is in flight on any entry -/
+theorem finished_means_quiet (nk : Nat) (progs : List (List Op)) (sched : List Nat)
+    (hall : allFinished (runSched nk progs sched).threads = true) {e : Nat}
+    (he : e < (runSched nk progs sched).g.next) : quietEntry ((runSched nk progs sched).g.ent e) :=
+  finished_quiet (placeBooks_runSched nk progs sched) hall he
+
+/-- **every client finished and released everything ⇒ the pool is empty and every value is let go of
+    exactly once** (destructed once if it is a Destructor, skipped once if it is not) — no side
+    hypothesis about calls in flight any more -/
+theorem all_clients_finished_pool_empty (nk : Nat) (progs : List (List Op)) (sched : List Nat)
+    (hc : (runSched nk progs sched).clean = true)
+    (hfin : allFinished (runSched nk progs sched).threads = true)
+    (hall : ∀ th ∈ (runSched nk progs sched).threads, th.held = []) :
+    (∀ k, (runSched nk progs sched).g.pool k = none)
+    ∧ ∀ e, e < (runSched nk progs sched).g.next → ((runSched nk progs sched).g.ent e).value.isSome = true →
+        ((runSched nk progs sched).g.ent e).destructed + ((runSched nk progs sched).g.ent e).skipped = 1 :=
+  all_clients_released_pool_empty nk progs sched hc hall (fun _ he => finished_means_quiet nk progs sched hfin he)
+
+-- non-vacuity: three handlers provision the same upstream and clean up (hosts client: values are not Destructors)
+example : let y := runSched 1 [[.lsp 0, .closeAll], [.lsp 0, .closeAll], [.lsp 0, .closeAll]] [0, 1, 2, 0, 1, 2]
+    (y.clean, allFinished y.threads, y.g.pool 0, (y.g.ent 0).skipped, (y.g.ent 0).destructed) = (true, true, none, 1, 0) := by
+  decide
 
 -- the log-writer client: config 0 opens writers 0 and 1, config 1 opens writer 0 and fails to open writer 1;
 -- after config 0 closed its logs (closeAll) config 1 still holds writer 0 alive; after both closed, nothing is left
